@@ -193,7 +193,7 @@ def eval_case(c):
         return (d.isel(lon=slice(0, 2)) * 0.5 + 0.01).rename({"lat": "lat2", "lon": "lon2"})
     S, C = xeofs.single, xeofs.cross
     if model in ("EOF", "ComplexEOF", "SparsePCA"):
-        m = getattr(S, model)(n_modes=2, solver="full").fit(train * (1 + 0.5j) if model == "ComplexEOF" else train, sd)
+        m = getattr(S, model)(n_modes=2, solver="full").fit(train + 0.7j * train.isel(lon=slice(None, None, -1)).assign_coords(lon=train.lon) if model == "ComplexEOF" else train, sd)
     elif model == "POP":
         m = S.POP(n_modes=2, n_pca_modes=4).fit(train, sd)
     elif model == "EOFRotator":
@@ -205,7 +205,7 @@ def eval_case(c):
         m = getattr(C, model)(n_modes=2, power=1).fit(b)
     cplx = model == "ComplexEOF"
     def tr(d, which="X"):
-        d = d * (1 + 0.5j) if cplx else d
+        d = d + 0.7j * d.isel(lon=slice(None, None, -1)).assign_coords(lon=d.lon) if cplx else d
         if not cross:
             return m.transform(d)
         if which == "X":
